@@ -19,6 +19,14 @@ mod common;
 pub mod config;
 mod workers;
 
+/// Verification hooks (compiled only with `--cfg aquatic_verif`): re-exports of the private
+/// swarm storage and of the socket worker's request parser.
+#[cfg(aquatic_verif)]
+pub mod verif {
+    pub use crate::workers::socket::verif_request::*;
+    pub use crate::workers::swarm::verif_storage::*;
+}
+
 pub const APP_NAME: &str = "aquatic_http: HTTP BitTorrent tracker";
 pub const APP_VERSION: &str = env!("CARGO_PKG_VERSION");
 
